@@ -218,13 +218,14 @@ def body(chk):
     n_ok = 150 if chk.tier == "quick" else 1500
     n_bad = 250 if chk.tier == "quick" else 3000
     for i in range(n_ok):
-        cases.append(dict(seed=chk.seed + i, n_img=1 + i % 8, shuffle=("none", "sections", "full")[i % 3], crlf=bool(i % 2), n_bad=0, kinds=[], fs=("local", "vtrace")[i % 2],
+        cases.append(dict(seed=chk.seed + i, n_img=i % 9,  # 0 images = the minimal listing: volume directory, leader, trailer
+                           shuffle=("none", "sections", "full")[i % 3], crlf=bool(i % 2), n_bad=0, kinds=[], fs=("local", "vtrace")[i % 2],
                           tables=tables, ids=ids))
     kinds = tables["corruptions"]
     for i in range(n_bad):
         cases.append(dict(seed=chk.seed + 5000 + i, n_img=1 + i % 3, shuffle=("none", "full")[i % 2], crlf=bool(i % 3 == 0), n_bad=1 + (i % 5 if i % 7 else 12),
                           kinds=kinds if i % 2 else [kinds[i % len(kinds)]], fs="local", tables=tables, ids=ids))
-    lc.prepare_layouts([dict(level=lv, images=[("HH", None, 2 + i % 3, 1 + i % 2) for i in range(n)]) for lv in ("1.1", "1.5", "3.1") for n in range(1, 9)])
+    lc.prepare_layouts([dict(level=lv, images=[("HH", None, 2 + i % 3, 1 + i % 2) for i in range(n)]) for lv in ("1.1", "1.5", "3.1") for n in range(0, 9)])
     results = checklib.pmap(run_case, cases, chk.scratch, chunksize=8)
     for res in results:
         c = res["case"]
